@@ -266,6 +266,38 @@ def h_dangling_rows(ctx):
         ctx.prove('a row naming an unknown site is refused with a topology error', err == 'topology', info=info)
 
 
+def h_service_rows_disjunctions(ctx):
+    """read_service_sheet on three Service rows whose "disjoint from" cells form every pattern (none, independent pairs, chains,
+    a row naming two others): one synchronisation group per non-empty cell, made of the row's own id followed by the ids it names"""
+    import contextlib
+    import io
+    from harness import c20_ch
+    from gnpy.tools import convert as cv, service_sheet as ss
+    cells = {rid: ctx.choice(f'row {rid}: disjoint from', opts) for rid, opts in
+             (('1', ['', '2', '3', '2 | 3']), ('2', ['', '3', '1']), ('3', ['', '1']))}
+    ends = {'1': ('A', 'D'), '2': ('A', 'C'), '3': ('B', 'D')}
+    rows = [ss.Request(request_id=rid, source=ends[rid][0], destination=ends[rid][1], trx_type='Voyager', mode='mode 1', spacing=50,
+                       power=0, nb_channel=10, disjoint_from=cells[rid], nodes_list='', is_loose='yes', path_bandwidth=100)
+            for rid in ('1', '2', '3')]
+    sh = c20_ch._Sheets(c20_ch._ROWS)
+    sh.install()
+    orig = ss.parse_excel
+    ss.parse_excel = lambda input_filename: list(rows)
+    try:
+        with contextlib.redirect_stdout(io.StringIO()):
+            data = cv.xls_to_json_data('in-memory.xlsx')
+            network = c20_ch._network_from_json(data, c20_ch._EQPT)
+            out = ss.read_service_sheet('in-memory.xlsx', c20_ch._EQPT, network, 'in-memory.xlsx')
+    finally:
+        ss.parse_excel = orig
+        sh.restore()
+    want = [[rid] + [x.strip() for x in cells[rid].split('|')] for rid in ('1', '2', '3') if cells[rid]]
+    got = [v['svec']['request-id-number'] for v in out.get('synchronization', [])]
+    ctx.prove('one request per Service row', [r['request-id'] for r in out['path-request']] == ['1', '2', '3'])
+    ctx.prove('one synchronisation group per non-empty "disjoint from" cell: own id followed by the ids it names', got == want,
+              info=dict(cells=cells, got=got, want=want))
+
+
 def setup():
     import logging
     logging.disable(logging.CRITICAL)
@@ -279,6 +311,7 @@ def jobs(tier):
               for i, t in enumerate(('ROADM', 'ILA', 'FUSED'))]
     extra += [dict(name='H20:link_attributes_per_direction', kind='symx', fn='h_link_attributes', witness_every=10, budget_s=200, cost=30),
               dict(name='H20:eqpt_attributes_per_direction', kind='symx', fn='h_eqpt_attributes', witness_every=20, budget_s=200, cost=40)]
+    extra += [dict(name='H20:service_rows_disjunction_groups', kind='symx', fn='h_service_rows_disjunctions', witness_every=4, budget_s=100, cost=10)]
     extra += [dict(name='H20:dangling_rows', kind='symx', fn='h_dangling_rows', witness_every=2, budget_s=100, cost=10)]
     extra += [dict(name='H20:route_through_inline_sites', kind='symx', fn='h_route_ila', witness_every=4, budget_s=200, cost=30)]
     return extra + [dict(name=f'CH20:{f}', kind='crosshair', fn='run_crosshair', target=f, ch_module='harness.c20_ch', per_condition_timeout=tmo,
